@@ -706,6 +706,54 @@ class K(Base, Mixin):
     pass
 OPS = [("new", (), {{}}), ("getattr", "made_by_mixin"), ("call", "get"), ("mro",)]
 ''',
+    "plain-diamond-whose-sibling-overrides-inherited-members": '''
+class Root{base}:
+    def __init__(self, x=1):
+        self.x = x
+    def who(self):
+        return "root"
+    def twice(self, n):
+        return 2 * n
+{deco}
+class Base(Root):
+    """Invariants; inherits everything from the plain Root (and holds wrapped copies of it)."""
+    def left(self):
+        return self.x
+class Right(Root):
+    def __init__(self, x=1, y=5):
+        super().__init__(x)
+        self.y = y
+    def who(self):
+        return "right"
+class K(Base, Right):
+    pass
+OPS = [("new", (), {{}}), ("call", "who"), ("call", "twice", 3), ("call", "left"), ("getattr", "y"), ("new", (2, 3), {{}}), ("getattr", "y"), ("mro",)]
+''',
+    "plain-diamond-whose-sibling-overrides-an-inherited-property": '''
+class Root{base}:
+    def __init__(self):
+        self._v = 1
+    @property
+    def v(self):
+        return self._v
+    @v.setter
+    def v(self, value):
+        self._v = value
+{deco}
+class Base(Root):
+    def left(self):
+        return self._v
+class Right(Root):
+    @property
+    def v(self):
+        return ("right", self._v)
+    @v.setter
+    def v(self, value):
+        self._v = 10 * value
+class K(Base, Right):
+    pass
+OPS = [("new", (), {{}}), ("getattr", "v"), ("setattr", "v", 3), ("getattr", "v"), ("call", "left")]
+''',
     "singleton-new": '''
 {deco}
 class K{base}:
@@ -923,6 +971,17 @@ CLASS_KEYS = {
 }
 
 
+def inherited_copy_shadows_a_sibling(mod, op) -> bool:
+    """Is the member which the operation reaches on K found in Base (a copy of what Root defines) although Right overrides it?"""
+    names = {"new": ["__init__"], "call": [op[1]] if len(op) > 1 else [], "getattr": [op[1], "__init__"] if len(op) > 1 else [],
+             "setattr": [op[1]] if len(op) > 1 else []}.get(op[0], [])
+    for name in names:
+        holder = next((k for k in mod.K.__mro__ if name in vars(k)), None)
+        if holder is mod.Base and name in vars(mod.Right) and name in vars(mod.Root):
+            return True
+    return False
+
+
 def run_classes(w) -> None:
     for tag, template in CLASS_PROGRAMS.items():
         for dbc in (False, True):
@@ -992,6 +1051,10 @@ def run_classes(w) -> None:
                                 and getattr(getattr(inspect.getattr_static(dec.module.Base, "__new__", None), "__func__", None), "__wrapped__", None) is object.__new__:
                             # (the same mechanism: the copy of object.__new__ held by the class with invariants)
                             key = "C14/copy-of-an-object-default-shadows-a-mixin-in-a-plain-subclass"
+                        elif tag.startswith("plain-diamond-whose-sibling-overrides") and not dbc and inherited_copy_shadows_a_sibling(dec.module, op):
+                            # mechanism: the class with invariants (Base) holds wrapped copies of the members it inherits from its plain
+                            # base; in a PLAIN common sub-class these copies are found before the overrides of a sibling (Right)
+                            key = "C14/copy-of-an-inherited-member-shadows-a-sibling-override-in-a-plain-subclass"
                         elif op[0] in OBJECT_DEFAULT_OPS and not dbc:
                             # mechanism: the class with invariants holds a wrapped copy of the default which ``object`` provides for
                             # the special method; in a PLAIN sub-class (nothing of the library runs when it is created) the copy is
